@@ -1,24 +1,25 @@
 #!/bin/bash
-# Rebuilds the simulator binaries from /verif/sim against /repo's current working tree (build tag verif).
+# Rebuilds the simulator binaries from <root>/sim against /repo's current working tree (build tag verif).
 set -e
+root="$(cd "$(dirname "$0")" && pwd)"
 export GOFLAGS=-mod=mod GOPROXY=off GOSUMDB=off GOTOOLCHAIN=local GOWORK=off
-cd /verif/sim
+cd "$root/sim"
 cp /repo/go.sum go.sum 2>/dev/null || true
-mkdir -p /verif/bin
-go build -tags verif -o /verif/bin/archesim ./cmd/archesim
+mkdir -p "$root/bin"
+go build -tags verif -o "$root/bin/archesim" ./cmd/archesim
 case "$1" in
-  ""|all|C01|C09|C16) go build -tags "verif tiny" -o /verif/bin/archesim_tiny ./cmd/archesim;;
+  ""|all|C01|C09|C16) go build -tags "verif tiny" -o "$root/bin/archesim_tiny" ./cmd/archesim;;
 esac
 case "$1" in
-  ""|all|C19) go build -race -tags verif -o /verif/bin/archesim_race ./cmd/archesim;;
+  ""|all|C19) go build -race -tags verif -o "$root/bin/archesim_race" ./cmd/archesim;;
 esac
 case "$1" in
   ""|all|C14)
     # newer toolchain: weak pointers give a synchronous liveness oracle for the release half of C14
-    GOTOOLCHAIN=local go1.26.8 build -tags verif -o /verif/bin/archesim_126 ./cmd/archesim
+    GOTOOLCHAIN=local go1.26.8 build -tags verif -o "$root/bin/archesim_126" ./cmd/archesim
     # without the verif tag: the library exactly as users build it (hook calls could perturb inlining / escape analysis)
-    go build -o /verif/bin/archesim_plain ./cmd/archesim
-    go build -o /verif/bin/gcstress ./cmd/gcstress
+    go build -o "$root/bin/archesim_plain" ./cmd/archesim
+    go build -o "$root/bin/gcstress" ./cmd/gcstress
     # the compiler's escape verdict for the call-site shapes, recorded as evidence
-    go build -tags verif -gcflags=-m . 2>&1 | grep 'shapes.go' | grep -v 'inline' > /verif/bin/escape_report.txt || true;;
+    go build -tags verif -gcflags=-m . 2>&1 | grep 'shapes.go' | grep -v 'inline' > "$root/bin/escape_report.txt" || true;;
 esac
